@@ -65,3 +65,166 @@ register(Contract(
     raises=[Raises("BadPluginError")],
     modifies=["self.__leaf_token_index", "self.__line_index", "g_reports.$list"],
 ))
+
+# ------------------------------------------------------------------------------------------------------------ MD047
+# newdocs/src/plugins/rule_md047.md: "This rule triggers when the document does not end with a single newline character",
+# including "a final line that has a newline character followed by one or more whitespace characters".  By the contract of
+# FileSourceProvider (C14) the last line delivered to the rules is '' exactly when the text ends with a newline, so the
+# documented condition is: the last line the rule saw is not empty.  Reported once, at the end of that line.
+M47 = "pymarkdown/plugins/rule_md_047.py::RuleMd047."
+_R["$fields"].types.update({"RuleMd047._RuleMd047__last_line": "str"})
+register(Contract(key=M47 + "starting_new_file", properties=P + ["C13"], ensures=["self.__last_line == ''"], modifies=["self.__last_line"]))
+register(Contract(key=M47 + "next_line", properties=P, ensures=["self.__last_line is line"], modifies=["self.__last_line"]))
+SETFIX = Assumed("PluginScanContext.set_current_fix_line[recorded]", params=["line"], pure=True, raises=[Raises("BadPluginFixError")],
+                 effects=["g_fixline.append(line)"], why="PluginScanContext.set_current_fix_line: replaces the line written by the line pass (C09/C10)")
+register(Contract(
+    key=M47 + "completed_file", properties=P,
+    ghost={"g_reports": "List[Any]", "g_fixline": "List[Any]"},
+    calls={"self.report_next_line_error": RPK + "report_next_line_error", "context.set_current_fix_line": SETFIX},
+    ensures=[
+        "implies(not context.in_fix_mode, len(g_reports) == old(len(g_reports)) + (1 if len(self.__last_line) > 0 else 0))",
+        "implies(not context.in_fix_mode and len(self.__last_line) > 0, g_reports[len(g_reports) - 1][1] == context.line_number - 1 "
+        "and g_reports[len(g_reports) - 1][2] == len(self.__last_line))",
+        "implies(context.in_fix_mode, len(g_reports) == old(len(g_reports)))",
+        # the fix appends exactly one newline, and only when the last line written does not already end with one
+        "implies(context.in_fix_mode, len(g_fixline) == old(len(g_fixline)) + "
+        "(1 if (context.last_line_fixed is not None and not context.last_line_fixed.endswith('\\n')) else 0))",
+        "implies(len(g_fixline) > old(len(g_fixline)), g_fixline[len(g_fixline) - 1] == '\\n')",
+    ],
+    raises=[Raises("BadPluginError"), Raises("BadPluginFixError")],
+    modifies=["g_reports.$list", "g_fixline.$list"],
+))
+
+# ------------------------------------------------------------------------------------------------------------ MD001
+# newdocs/src/plugins/rule_md001.md: "This rule triggers when a heading level is increased by more than one level"; a front-matter
+# item named by `front_matter_title` counts as the document's level 1 heading.  Spec automaton: state L = level of the previous
+# heading (0: none yet); a heading of level h is reported iff L > 0 and h > L + 1; then L := h.  In fix mode the heading is
+# rewritten to level L + 1 instead (the only field the rule edits: hash_count) and L := L + 1.
+M01 = "pymarkdown/plugins/rule_md_001.py::RuleMd001."
+_R["$fields"].types.update({"RuleMd001._RuleMd001__last_heading_count": "int", "RuleMd001._RuleMd001__front_matter_title": "str",
+                            "SetextHeadingMarkdownToken._SetextHeadingMarkdownToken__hash_count": "int",
+                            "FrontMatterMarkdownToken._FrontMatterMarkdownToken__matter_map": "Dict[str, str]",
+                            # the specification reads the map through `token`, which it types as a heading token (as the rule's cast does)
+                            "SetextHeadingMarkdownToken._FrontMatterMarkdownToken__matter_map": "Dict[str, str]"})
+FIXREQ = Assumed("RulePlugin.register_fix_token_request[recorded]", params=["context", "token", "plugin_action", "field_name", "field_value"],
+                 pure=True, raises=[Raises("BadPluginFixError")], effects=["g_fixreq.append((token, field_name, field_value))"],
+                 why="RulePlugin.register_fix_token_request -> PluginScanContext.register_fix_token_request: queues the request (C08 covers what may be requested)")
+HEAD = "(token.is_atx_heading or token.is_setext_heading)"
+TITLE_FM = "(not " + HEAD + " and token.is_front_matter and self.__front_matter_title in token._FrontMatterMarkdownToken__matter_map)"
+H = f"(token.hash_count if {HEAD} else (1 if {TITLE_FM} else 0))"
+L0 = "old(self.__last_heading_count)"
+SKIP = f"({H} > 0 and {L0} > 0 and {H} > {L0} + 1)"
+register(Contract(key=M01 + "starting_new_file", properties=P + ["C13"], ensures=["self.__last_heading_count == 0"], modifies=["self.__last_heading_count"]))
+register(Contract(
+    key=M01 + "next_token", properties=P + ["C09"],
+    ghost={"g_reports": "List[Any]", "g_fixreq": "List[Any]"},
+    types={"token": "SetextHeadingMarkdownToken"},
+    calls={"self.report_next_token_error": RPK + "report_next_token_error", "self.register_fix_token_request": FIXREQ},
+    requires=["self.__last_heading_count >= 0", f"implies({HEAD}, 1 <= token.hash_count and token.hash_count <= 6)",
+              "has_type(token.line_number, 'int') and has_type(token.column_number, 'int')"],
+    ensures=[
+        f"implies(not context.in_fix_mode, len(g_reports) == old(len(g_reports)) + (1 if {SKIP} else 0))",
+        f"implies(not context.in_fix_mode and {SKIP}, g_reports[len(g_reports) - 1][1] == token.line_number and g_reports[len(g_reports) - 1][2] == token.column_number)",
+        f"implies(not context.in_fix_mode, self.__last_heading_count == ({H} if {H} > 0 else {L0}))",
+        "implies(not context.in_fix_mode, len(g_fixreq) == old(len(g_fixreq)))",
+        # fix mode: the heading is pulled up to exactly one level below its predecessor, nothing is reported
+        "implies(context.in_fix_mode, len(g_reports) == old(len(g_reports)))",
+        f"implies(context.in_fix_mode, len(g_fixreq) == old(len(g_fixreq)) + (1 if {SKIP} else 0))",
+        f"implies(context.in_fix_mode and {SKIP}, g_fixreq[len(g_fixreq) - 1] == (token, 'hash_count', {L0} + 1))",
+        f"implies(context.in_fix_mode, self.__last_heading_count == (({L0} + 1) if {SKIP} else ({H} if {H} > 0 else {L0})))",
+    ],
+    raises=[Raises("BadPluginError"), Raises("BadPluginFixError")],
+    modifies=["self.__last_heading_count", "g_reports.$list", "g_fixreq.$list"],
+))
+
+# ------------------------------------------------------------------------------------------------------------ MD048
+# newdocs/src/plugins/rule_md048.md: the fence style of every fenced code block must be the configured one (`backtick` / `tilde`) or,
+# for `consistent`, the style of the first fenced code block of the document.  Spec automaton: state E = expected style ('' = not
+# yet known); a fence of style c: E' = E if E != '' else c; reported iff E' != c.  In fix mode the fence character is rewritten.
+M48 = "pymarkdown/plugins/rule_md_048.py::RuleMd048."
+_R["$fields"].types.update({"RuleMd048._RuleMd048__style_type": "str", "RuleMd048._RuleMd048__actual_style_type": "str",
+                            "FencedCodeBlockMarkdownToken._FencedCodeBlockMarkdownToken__fence_character": "str"})
+A48 = "self.__actual_style_type"
+CUR = "('backtick' if token.fence_character == '`' else 'tilde')"
+EXP = f"(old({A48}) if old({A48}) != '' else {CUR})"
+register(Contract(
+    key=M48 + "starting_new_file", properties=P + ["C13"],
+    ensures=[f"{A48} == (self.__style_type if self.__style_type != 'consistent' else '')"], modifies=[A48]))
+register(Contract(
+    key=M48 + "next_token", properties=P + ["C09"],
+    ghost={"g_reports": "List[Any]", "g_fixreq": "List[Any]"},
+    types={"token": "FencedCodeBlockMarkdownToken"},
+    calls={"self.report_next_token_error": RPK + "report_next_token_error", "self.register_fix_token_request": FIXREQ},
+    requires=[f"{A48} == '' or {A48} == 'backtick' or {A48} == 'tilde'", "len(token.fence_character) == 1",
+              "has_type(token.line_number, 'int') and has_type(token.column_number, 'int')"],
+    ensures=[
+        f"implies(not token.is_fenced_code_block, {A48} == old({A48}) and len(g_reports) == old(len(g_reports)) and len(g_fixreq) == old(len(g_fixreq)))",
+        f"implies(token.is_fenced_code_block, {A48} == {EXP})",
+        f"implies(token.is_fenced_code_block and not context.in_fix_mode, len(g_reports) == old(len(g_reports)) + (1 if {EXP} != {CUR} else 0) "
+        f"and len(g_fixreq) == old(len(g_fixreq)))",
+        f"implies(token.is_fenced_code_block and not context.in_fix_mode and {EXP} != {CUR}, "
+        f"g_reports[len(g_reports) - 1][1] == token.line_number and g_reports[len(g_reports) - 1][2] == token.column_number)",
+        f"implies(token.is_fenced_code_block and context.in_fix_mode, len(g_fixreq) == old(len(g_fixreq)) + (1 if {EXP} != {CUR} else 0) "
+        f"and len(g_reports) == old(len(g_reports)))",
+        f"implies(token.is_fenced_code_block and context.in_fix_mode and {EXP} != {CUR}, "
+        f"g_fixreq[len(g_fixreq) - 1] == (token, 'fence_character', ('`' if {EXP} == 'backtick' else '~')))",
+    ],
+    raises=[Raises("BadPluginError"), Raises("BadPluginFixError")],
+    modifies=[A48, "g_reports.$list", "g_fixreq.$list"],
+))
+
+# ------------------------------------------------------------------------------------------------------------ MD025
+# newdocs/src/plugins/rule_md025.md: "This rule triggers when there are multiple top-level headings" (level = `level`, default 1;
+# a front-matter item named by `front_matter_title` counts as one).  Spec automaton: state T = a top-level heading was seen;
+# a heading of the configured level is reported iff T already holds; then T := True.  Other headings and tokens change nothing.
+M25 = "pymarkdown/plugins/rule_md_025.py::RuleMd025."
+_R["$fields"].types.update({"RuleMd025._RuleMd025__level": "int", "RuleMd025._RuleMd025__have_top_level": "bool", "RuleMd025._RuleMd025__front_matter_title": "str",
+                            "AtxHeadingMarkdownToken._AtxHeadingMarkdownToken__hash_count": "int",
+                            "AtxHeadingMarkdownToken._FrontMatterMarkdownToken__matter_map": "Dict[str, str]"})
+TOP = "(" + HEAD + " and token.hash_count == self.__level)"
+FM25 = "(not " + HEAD + " and token.is_front_matter and self.__front_matter_title in token._FrontMatterMarkdownToken__matter_map)"
+register(Contract(key=M25 + "starting_new_file", properties=P + ["C13"], ensures=["self.__have_top_level == False"], modifies=["self.__have_top_level"]))
+register(Contract(
+    key=M25 + "next_token", properties=P,
+    ghost={"g_reports": "List[Any]"},
+    types={"token": "AtxHeadingMarkdownToken"},
+    calls={"self.report_next_token_error": RPK + "report_next_token_error"},
+    requires=["has_type(token.line_number, 'int') and has_type(token.column_number, 'int')"],
+    ensures=[
+        f"len(g_reports) == old(len(g_reports)) + (1 if ({TOP} and old(self.__have_top_level)) else 0)",
+        f"implies({TOP} and old(self.__have_top_level), g_reports[len(g_reports) - 1][1] == token.line_number and g_reports[len(g_reports) - 1][2] == token.column_number)",
+        f"self.__have_top_level == (old(self.__have_top_level) or {TOP} or {FM25})",
+    ],
+    raises=[Raises("BadPluginError")],
+    modifies=["self.__have_top_level", "g_reports.$list"],
+))
+
+# ------------------------------------------------------------------------------------------------------------ MD035
+# newdocs/src/plugins/rule_md035.md: every thematic break must be written as the configured text or, for `consistent`, as the first
+# thematic break of the document.  Spec automaton: state E = expected text ('' = not yet known); a break written b: if E == '' then
+# E := b (no report) else reported iff E != b.  In fix mode the break is rewritten to E (start_character = E[0], rest_of_line = E).
+M35 = "pymarkdown/plugins/rule_md_035.py::RuleMd035."
+_R["$fields"].types.update({"RuleMd035._RuleMd035__rule_style": "str", "RuleMd035._RuleMd035__actual_style": "str",
+                            "ThematicBreakMarkdownToken._ThematicBreakMarkdownToken__rest_of_line": "str"})
+A35 = "self.__actual_style"
+BAD35 = f"(token.is_thematic_break and old({A35}) != '' and old({A35}) != token.rest_of_line)"
+register(Contract(
+    key=M35 + "starting_new_file", properties=P + ["C13"],
+    ensures=[f"implies(self.__rule_style == 'consistent', {A35} == '')", f"implies(self.__rule_style != 'consistent', {A35} is old({A35}))"], modifies=[A35]))
+register(Contract(
+    key=M35 + "next_token", properties=P + ["C09"],
+    ghost={"g_reports": "List[Any]", "g_fixreq": "List[Any]"},
+    types={"token": "ThematicBreakMarkdownToken"},
+    calls={"self.report_next_token_error": RPK + "report_next_token_error", "self.register_fix_token_request": FIXREQ},
+    requires=["has_type(token.line_number, 'int') and has_type(token.column_number, 'int')"],
+    ensures=[
+        f"{A35} is (token.rest_of_line if (token.is_thematic_break and old({A35}) == '') else old({A35}))",
+        f"implies(not context.in_fix_mode, len(g_reports) == old(len(g_reports)) + (1 if {BAD35} else 0) and len(g_fixreq) == old(len(g_fixreq)))",
+        f"implies(not context.in_fix_mode and {BAD35}, g_reports[len(g_reports) - 1][1] == token.line_number and g_reports[len(g_reports) - 1][2] == token.column_number)",
+        f"implies(context.in_fix_mode, len(g_reports) == old(len(g_reports)) and len(g_fixreq) == old(len(g_fixreq)) + (2 if {BAD35} else 0))",
+        f"implies(context.in_fix_mode and {BAD35}, g_fixreq[len(g_fixreq) - 1] == (token, 'rest_of_line', old({A35})) and "
+        f"g_fixreq[len(g_fixreq) - 2][0] is token and g_fixreq[len(g_fixreq) - 2][1] == 'start_character')",
+    ],
+    raises=[Raises("BadPluginError"), Raises("BadPluginFixError")],
+    modifies=[A35, "g_reports.$list", "g_fixreq.$list"],
+))
